@@ -773,6 +773,83 @@ def check_lineage_loops(ctx):
                '; '.join(problems))
 
 
+UNSIGNED_TYPES = ('unsigned', 'unsigned int', 'unsigned long', 'unsigned long long', 'size_t', 'unsigned short', 'unsigned char', 'Py_ssize_t_unsigned')
+INT_TYPES = UNSIGNED_TYPES + ('int', 'long', 'long long', 'short', 'Py_ssize_t', 'ssize_t')
+
+
+def _ctype(prog, cls, f, n):
+    """declared C type of an operand of the lowered tree, or None when it is not declared (a Python object / unknown)"""
+    n0 = n
+    if isinstance(n, ast.Call) and isinstance(n.func, ast.Name) and n.func.id == '__cast__' and len(n.args) == 2 and isinstance(n.args[0], ast.Constant):
+        return str(n.args[0].value)
+    if isinstance(n, ast.Constant) and isinstance(n.value, int) and not isinstance(n.value, bool):
+        return 'int'
+    if isinstance(n, ast.Constant) and isinstance(n.value, float):
+        return 'double'
+    if isinstance(n, ast.Attribute) and isinstance(n.value, ast.Name) and n.value.id == 'self':
+        return prog.all_attrs(cls).get(n.attr)
+    if isinstance(n, ast.Name):
+        for a in f.args.args:
+            if a.arg == n.id and isinstance(a.annotation, ast.Constant):
+                return str(a.annotation.value)
+        for x in ast.walk(f):
+            if isinstance(x, ast.AnnAssign) and isinstance(x.target, ast.Name) and x.target.id == n.id and isinstance(x.annotation, ast.Constant):
+                return str(x.annotation.value)
+        return None
+    if isinstance(n, ast.Subscript):
+        t = _ctype(prog, cls, f, n.value)
+        if t and t.startswith('vector[') and t.endswith(']'):
+            return t[len('vector['):-1]
+        if t and t.endswith('*'):
+            return t[:-1].strip()
+        return None
+    if isinstance(n, ast.BinOp):
+        l, r = _ctype(prog, cls, f, n.left), _ctype(prog, cls, f, n.right)
+        if l == 'double' or r == 'double' or isinstance(n.op, ast.Pow):
+            return 'double'
+        if l in UNSIGNED_TYPES or r in UNSIGNED_TYPES:
+            return 'unsigned'       # usual arithmetic conversions
+        if l in INT_TYPES and r in INT_TYPES:
+            return 'int'
+    return None
+
+
+def check_c_arithmetic(ctx):
+    """The closed forms are compared over the reals; C computes `a - b` in unsigned arithmetic when a is unsigned and b integral, which
+    wraps to a huge number whenever a < b (an order-0 reaction: num_species - 1).  No subtraction in a rate-law method has an unsigned
+    left operand and an integral right operand."""
+    prog = ctx.prog
+    n_sub = 0
+    for cls in list(KEYS):
+        for mode in MODES:
+            bad = []
+            # the method of this mode and the sibling methods it evaluates through `self.`
+            todo, seen = [mode], set()
+            while todo:
+                m_ = todo.pop()
+                if m_ in seen:
+                    continue
+                seen.add(m_)
+                dc, f = prog.resolve_method(cls, m_)
+                if f is None:
+                    continue
+                for n in ast.walk(f):
+                    if isinstance(n, ast.Call) and isinstance(n.func, ast.Attribute) and isinstance(n.func.value, ast.Name) and n.func.value.id == 'self' \
+                            and n.func.attr in MODES:
+                        todo.append(n.func.attr)
+                    if isinstance(n, ast.BinOp) and isinstance(n.op, ast.Sub):
+                        n_sub += 1
+                        lt, rt = _ctype(prog, dc, f, n.left), _ctype(prog, dc, f, n.right)
+                        if lt in UNSIGNED_TYPES and rt in INT_TYPES:
+                            bad.append('%s.%s: `%s` is computed in unsigned arithmetic (%s - %s): it wraps around when the left operand is smaller'
+                                       % (dc, m_, src(n), lt, rt))
+            dc0, f0 = prog.resolve_method(cls, mode)
+            ctx.ob('R1.1-formula', '%s/%s/c-arithmetic' % (cls, MODE_NAME[mode]), not bad, ctx.loc('types', f0) if f0 is not None else '',
+                   'the subtractions of the rate-law method mean what they mean over the reals: none is carried out in unsigned C arithmetic',
+                   '; '.join(sorted(set(bad))[:2]))
+    ctx.call_sites += n_sub
+
+
 def reemit(ctx, rule, want_mode, slots):
     """Run all of C01 and re-emit, under `rule`, the obligations another property rests on: the closed forms of one evaluation mode
     (`want_mode` = 'deterministic' | 'stochastic' | 'volume' | 'stochastic+volume'), the key-to-index binding and reactant multiset
@@ -782,7 +859,8 @@ def reemit(ctx, rule, want_mode, slots):
     check(sub)
     n = 0
     for r, key, ok, where, what, detail in sub.got:
-        take = (r == 'R1.1-formula' and ('/%s/' % want_mode in key or key.endswith('/' + want_mode))) or r in ('R1.2-binding', 'R1.3-dispatch') or \
+        take = (r == 'R1.1-formula' and ('/%s/' % want_mode in key or key.endswith('/' + want_mode))) \
+            or r in ('R1.2-binding', 'R1.3-dispatch') or \
             (r == 'R1.4-iface-loop' and key.split('/')[-1] in slots)
         if take:
             ctx.ob(rule, '%s/%s' % (r, key), ok, where, what, detail)
@@ -812,6 +890,7 @@ def check(ctx):
             check_formulas(ctx, cls, roles)
         else:
             ctx.note('%s: formulas not compared because the binding obligations failed' % cls)
+    check_c_arithmetic(ctx)
     check_dispatch(ctx)
     check_arguments_untouched(ctx)
     for cls in ('ModelCSimInterface', 'SafeModelCSimInterface'):
